@@ -55,8 +55,14 @@ namespace awkward {
 
   void
   TupleBuilder::clear() {
-    contents_.clear();
-    length_ = -1;
+    // all data are removed, the fields' builders (the type knowledge) are kept;
+    // a builder that never began stays fresh
+    for (auto x : contents_) {
+      x.get()->clear();
+    }
+    if (length_ != -1) {
+      length_ = 0;
+    }
     begun_ = false;
     nextindex_ = -1;
   }
